@@ -5,12 +5,12 @@ package main
 // non-canonical feature applied at a chosen item.
 
 import (
-	"io"
 	"bytes"
 	"crypto/sha256"
 	"encoding/binary"
 	"encoding/json"
 	"fmt"
+	"io"
 	"math"
 	"math/big"
 	"time"
